@@ -42,3 +42,30 @@ Example wprog_sharp : wprog_ok [WNormalize false] = false /\
    | Some st => match st 0 with Some w => w 0 | None => 0%Z end | None => 0%Z end = 2%Z) /\
   wprog_ok [WAssign 1 (WVar 0); WAssign 2 (WAffine 1 0); WAssign 0 (WVar 2); WNormalize true] = true.
 Proof. vm_compute. repeat split. Qed.
+
+(* initialize_cp: on a path accepted by ipath_ones the returned weights are all ones when normalize_factors is False, whatever weights the
+   caller's initialisation carried and whatever cp_normalize does *)
+Theorem ipath_unit_weights (K : Type) (k1 : K) (normalise : (nat -> K) -> nat -> K) : forall p known w users,
+  ipath_ones known p = true -> (known = true -> exists w0, w = Some w0 /\ forall r, w0 r = k1) ->
+  exists w', iexec K k1 normalise false p users w = Some w' /\ forall r, w' r = k1.
+Proof.
+  induction p as [|s p IH]; intros known w users Hp Hk; simpl in *.
+  - apply Hk, Hp.
+  - destruct s as [| |g|].
+    + apply (IH true); [exact Hp|]. intros _. eexists; split; [reflexivity | reflexivity].
+    + apply (IH false); [exact Hp | discriminate].
+    + apply (IH (known && g)); [exact Hp|]. intros Hkg. apply andb_prop in Hkg. destruct Hkg as [-> ->]. simpl. now apply Hk.
+    + apply (IH known); assumption.
+Qed.
+Theorem ipaths_unit_weights (K : Type) (k1 : K) (normalise : (nat -> K) -> nat -> K) ps : ipaths_ok ps = true ->
+  forall p users, In p ps -> exists w', iexec K k1 normalise false p users None = Some w' /\ forall r, w' r = k1.
+Proof.
+  intros H p users Hin. unfold ipaths_ok in H. rewrite forallb_forall in H.
+  apply (ipath_unit_weights K k1 normalise p false); [now apply H | discriminate].
+Qed.
+(* sharpness: a path returning the caller's tensor as it came, and a path with an unguarded normalisation, are rejected and do change the weights *)
+Example ipaths_sharp : ipaths_ok [[IUser]] = false /\ ipaths_ok [[IFresh; INormalize false]] = false /\
+  ipaths_ok [[IFresh; IFactors; INormalize true]; [IUser; IFresh; INormalize true]] = true /\
+  (match iexec Z 1%Z (fun w r => (2 * w r)%Z) false [IFresh; INormalize false] [] None with Some w => w 0 | None => 0%Z end = 2%Z) /\
+  (match iexec Z 1%Z (fun w r => (2 * w r)%Z) false [IUser] [fun _ => 5%Z] None with Some w => w 0 | None => 0%Z end = 5%Z).
+Proof. vm_compute. repeat split. Qed.
